@@ -189,7 +189,14 @@ func secretScalars(th bool) []mc.Val {
 			add("glv: "+glv[i].Label, glv[i].V)
 		}
 	}
-	for i := 0; i < 12; i++ {
+	nr := 12
+	if th {
+		nr = 96
+		for _, v := range mc.GLVScalars(true) {
+			add("glv(full): "+v.Label, v.V)
+		}
+	}
+	for i := 0; i < nr; i++ {
 		add(fmt.Sprintf("pseudo-random #%d", i), ref.OS2IP(ref.TaggedHash("verif/C17", []byte{byte(i)})))
 	}
 	return out
